@@ -227,3 +227,221 @@ package schema
 //@   requires forall i in 0..len(operands) :: operands[i] != nil
 //@   ensures[C10] empty-is-nil: len(operands) == 0 <==> result == nil
 //@   loop 1 invariant (isnil(group) || fresh(group)) && len(group) >= 1 && (forall k in 0..len(group) :: group[k] != nil) && (forall m in 0..len(operands) :: operands[m] != nil)
+
+// =====================================================================================
+// The parser (C12: every loop terminates, no crash). pm(p): the lexer's progress measure
+// doubled, plus one for a buffered look-ahead token that is not the "broken state" item.
+// Every token the parser consumes lowers pm, except the "broken state" error item that the
+// lexer returns forever once the scan has ended - and every loop turns that item into
+// p.fatal. Hence the loop variant "p.fatal ? 0 : pm(p) + 1".
+
+//@ spec wfp(p *parser) bool = p != nil && p.lexer != nil && wf(p.lexer) && pending(p.lexer) == 0 && rank(p.lexer.state) != 1 && (p.lookahead != nil ==> p.lookahead.Start >= 0 && p.lookahead.Start <= p.lookahead.End)
+//@ spec pm(p *parser) int = 2 * lm(p.lexer) + ((p.lookahead != nil && !isbroken(*p.lookahead)) ? 1 : 0)
+
+//@ func Lex
+//@   props C12
+//@   modifies nothing
+//@   ensures result != nil && fresh(result) && wf(result) && pending(result) == 0 && result.state == lexCode && result.pos == 0 && result.input == input
+
+//@ func (*parser).next
+//@   props C12
+//@   requires wfp(p)
+//@   modifies p.lookahead, p.lexer.pos, p.lexer.width, p.lexer.start, p.lexer.state, chanstate(p.lexer.items)
+//@   ensures wfp(p) && p.lexer == old(p.lexer) && p.fatal == old(p.fatal)
+//@   ensures item.Start >= 0 && item.Start <= item.End
+//@   ensures[C12] consumes-or-broken: pm(p) < old(pm(p)) || (isbroken(item) && pm(p) <= old(pm(p)))
+
+//@ func (*parser).peek
+//@   props C12
+//@   requires wfp(p)
+//@   modifies p.lookahead, p.lexer.pos, p.lexer.width, p.lexer.start, p.lexer.state, chanstate(p.lexer.items)
+//@   ensures wfp(p) && p.lexer == old(p.lexer) && p.fatal == old(p.fatal) && p.lookahead != nil
+//@   ensures result.Start >= 0 && result.Start <= result.End && result.Typ == p.lookahead.Typ && result.Val == p.lookahead.Val
+//@   ensures[C12] never-raises-the-measure: pm(p) <= old(pm(p))
+
+//@ func (*parser).addErr
+//@   props C12
+//@   noframe
+//@   requires p != nil
+//@   modifies p.errors
+//@   ensures len(p.errors) == old(len(p.errors)) + 1
+
+//@ func (*parser).addFatal
+//@   props C12
+//@   noframe
+//@   requires p != nil
+//@   modifies p.errors, p.fatal
+//@   ensures p.fatal
+
+//@ func (*parser).addCheck
+//@   props C12
+//@   noframe
+//@   requires p != nil
+//@   modifies p.checks
+
+// what every parse step guarantees: the parser stays well-formed and the measure does not grow
+//@ spec step(p *parser) bool = wfp(p)
+
+// the type of the optional(...) matchers
+//@ func functype::schema.matcher
+//@   requires wfp(arg0)
+//@   modifies arg0.lookahead, arg0.fatal, arg0.errors, arg0.lexer.pos, arg0.lexer.width, arg0.lexer.start, arg0.lexer.state, chanstate(arg0.lexer.items)
+//@   ensures wfp(arg0) && arg0.lexer == old(arg0.lexer) && pm(arg0) <= old(pm(arg0)) && (old(arg0.fatal) ==> arg0.fatal) && (!result ==> arg0.fatal)
+
+//@ func optional$1
+//@   props C12
+//@   like functype::schema.matcher
+//@   noframe
+//@   loop 1 invariant wfp(p) && p.lexer == old(p.lexer) && pm(p) <= old(pm(p)) && (old(p.fatal) ==> p.fatal)
+
+//@ func optional
+//@   props C12
+//@   modifies nothing
+//@   ensures result != nil
+
+// the tokens handed to match are strings, *string, *item or matchers
+//@ spec tokenok(t any) bool = istype(t, string) || (istype(t, *string) && as(t, *string) != nil) || (istype(t, *item) && as(t, *item) != nil) || (istype(t, matcher) && as(t, matcher) != nil)
+
+//@ func (*parser).match
+//@   props C12
+//@   noframe
+//@   opt dead-ok unexpected token type
+//@   requires wfp(p)
+//@   requires[C12] token-kinds: forall i in 0..len(tokens) :: tokenok(tokens[i])
+//@   modifies p.lookahead, p.fatal, p.errors, p.lexer.pos, p.lexer.width, p.lexer.start, p.lexer.state, chanstate(p.lexer.items), pointees(tokens)
+//@   ensures wfp(p) && p.lexer == old(p.lexer) && pm(p) <= old(pm(p)) && (old(p.fatal) ==> p.fatal) && (!matched ==> p.fatal)
+//@   loop 1 invariant wfp(p) && p.lexer == old(p.lexer) && pm(p) <= old(pm(p)) && (old(p.fatal) ==> p.fatal) && (forall i in 0..len(tokens) :: tokenok(tokens[i]))
+
+//@ func is
+//@   props C12
+//@   modifies nothing
+//@   ensures result != nil
+
+//@ func is$1
+//@   props C12
+//@   modifies nothing
+
+//@ func functype::schema.itemPredicate
+//@   modifies nothing
+
+//@ func (*parser).matchIf
+//@   props C12
+//@   noframe
+//@   requires wfp(p) && predicate != nil
+//@   requires[C12] token-kinds: forall i in 0..len(tokens) :: tokenok(tokens[i])
+//@   modifies p.lookahead, p.fatal, p.errors, p.lexer.pos, p.lexer.width, p.lexer.start, p.lexer.state, chanstate(p.lexer.items), pointees(tokens)
+//@   ensures wfp(p) && p.lexer == old(p.lexer) && pm(p) <= old(pm(p)) && (old(p.fatal) ==> p.fatal)
+
+//@ func (*parser).matchPropertyAccess
+//@   props C12
+//@   noframe
+//@   requires wfp(p) && tokenok(propertyName)
+//@   modifies p.lookahead, p.fatal, p.errors, p.lexer.pos, p.lexer.width, p.lexer.start, p.lexer.state, chanstate(p.lexer.items), deref(propertyName)
+//@   ensures wfp(p) && p.lexer == old(p.lexer) && pm(p) <= old(pm(p)) && (old(p.fatal) ==> p.fatal) && (!result ==> p.fatal)
+
+// ---- the parse functions. FR: what they may change. Each keeps the parser well-formed and
+// never raises the measure; each loop either consumes a token or sets p.fatal.
+//@ spec keeps(p *parser) bool = wfp(p)
+
+//@ func (*parser).parseComputedSubjectSet
+//@   props C12
+//@   noframe
+//@   requires wfp(p)
+//@   modifies p.lookahead, p.fatal, p.errors, p.checks, p.lexer.pos, p.lexer.width, p.lexer.start, p.lexer.state, chanstate(p.lexer.items)
+//@   ensures wfp(p) && p.lexer == old(p.lexer) && pm(p) <= old(pm(p)) && (old(p.fatal) ==> p.fatal) && (isnil(rewrite) ==> p.fatal)
+
+//@ func (*parser).parseTupleToSubjectSet
+//@   props C12
+//@   noframe
+//@   requires wfp(p)
+//@   modifies p.lookahead, p.fatal, p.errors, p.checks, p.lexer.pos, p.lexer.width, p.lexer.start, p.lexer.state, chanstate(p.lexer.items)
+//@   ensures wfp(p) && p.lexer == old(p.lexer) && pm(p) <= old(pm(p)) && (old(p.fatal) ==> p.fatal)
+
+//@ func (*parser).parsePermissionExpression
+//@   props C12
+//@   noframe
+//@   requires wfp(p)
+//@   modifies p.lookahead, p.fatal, p.errors, p.checks, p.lexer.pos, p.lexer.width, p.lexer.start, p.lexer.state, chanstate(p.lexer.items)
+//@   ensures wfp(p) && p.lexer == old(p.lexer) && pm(p) <= old(pm(p)) && (old(p.fatal) ==> p.fatal)
+//@   ensures[C12] nil-only-when-fatal-or-progress: isnil(child) ==> p.fatal || pm(p) < old(pm(p))
+
+//@ func (*parser).parseNotExpression
+//@   props C12
+//@   noframe
+//@   requires wfp(p)
+//@   modifies p.lookahead, p.fatal, p.errors, p.checks, p.lexer.pos, p.lexer.width, p.lexer.start, p.lexer.state, chanstate(p.lexer.items)
+//@   decreases depth
+//@   ensures wfp(p) && p.lexer == old(p.lexer) && pm(p) <= old(pm(p)) && (old(p.fatal) ==> p.fatal)
+
+//@ func (*parser).parsePermissionExpressions
+//@   props C12
+//@   noframe
+//@   requires wfp(p)
+//@   modifies p.lookahead, p.fatal, p.errors, p.checks, p.lexer.pos, p.lexer.width, p.lexer.start, p.lexer.state, chanstate(p.lexer.items)
+//@   decreases depth
+//@   ensures wfp(p) && p.lexer == old(p.lexer) && pm(p) <= old(pm(p)) && (old(p.fatal) ==> p.fatal)
+//@   loop 1 invariant wfp(p) && p.lexer == old(p.lexer) && pm(p) <= old(pm(p)) && (old(p.fatal) ==> p.fatal) && (isnil(operands) || fresh(operands)) && (isnil(operators) || fresh(operators))
+//@   loop 1 decreases[C12] p.fatal ? 0 : pm(p) + 1
+
+//@ func (*parser).matchSubjectSet
+//@   props C12
+//@   noframe
+//@   requires wfp(p)
+//@   modifies p.lookahead, p.fatal, p.errors, p.checks, p.lexer.pos, p.lexer.width, p.lexer.start, p.lexer.state, chanstate(p.lexer.items)
+//@   ensures wfp(p) && p.lexer == old(p.lexer) && pm(p) <= old(pm(p)) && (old(p.fatal) ==> p.fatal)
+
+//@ func (*parser).parseTypeUnion
+//@   props C12
+//@   noframe
+//@   requires wfp(p)
+//@   modifies p.lookahead, p.fatal, p.errors, p.checks, p.lexer.pos, p.lexer.width, p.lexer.start, p.lexer.state, chanstate(p.lexer.items)
+//@   ensures wfp(p) && p.lexer == old(p.lexer) && pm(p) <= old(pm(p)) && (old(p.fatal) ==> p.fatal)
+//@   loop 1 invariant wfp(p) && p.lexer == old(p.lexer) && pm(p) <= old(pm(p)) && (old(p.fatal) ==> p.fatal) && (isnil(types) || fresh(types))
+//@   loop 1 decreases[C12] p.fatal ? 0 : pm(p) + 1
+
+//@ func (*parser).parseRelated
+//@   props C12
+//@   noframe
+//@   requires wfp(p)
+//@   modifies p.lookahead, p.fatal, p.errors, p.checks, p.namespace, p.lexer.pos, p.lexer.width, p.lexer.start, p.lexer.state, chanstate(p.lexer.items)
+//@   ensures wfp(p) && p.lexer == old(p.lexer) && pm(p) <= old(pm(p)) && (old(p.fatal) ==> p.fatal)
+//@   loop 1 invariant wfp(p) && p.lexer == old(p.lexer) && pm(p) <= old(pm(p)) && (old(p.fatal) ==> p.fatal)
+//@   loop 1 decreases[C12] p.fatal ? 0 : pm(p) + 1
+
+//@ func (*parser).parsePermits
+//@   props C12
+//@   noframe
+//@   requires wfp(p)
+//@   modifies p.lookahead, p.fatal, p.errors, p.checks, p.namespace, p.lexer.pos, p.lexer.width, p.lexer.start, p.lexer.state, chanstate(p.lexer.items)
+//@   ensures wfp(p) && p.lexer == old(p.lexer) && pm(p) <= old(pm(p)) && (old(p.fatal) ==> p.fatal)
+//@   loop 1 invariant wfp(p) && p.lexer == old(p.lexer) && pm(p) <= old(pm(p)) && (old(p.fatal) ==> p.fatal)
+//@   loop 1 decreases[C12] p.fatal ? 0 : pm(p) + 1
+
+//@ func (*parser).parseClass
+//@   props C12
+//@   noframe
+//@   requires wfp(p)
+//@   modifies p.lookahead, p.fatal, p.errors, p.checks, p.namespace, p.namespaces, p.lexer.pos, p.lexer.width, p.lexer.start, p.lexer.state, chanstate(p.lexer.items)
+//@   ensures wfp(p) && p.lexer == old(p.lexer) && pm(p) <= old(pm(p)) && (old(p.fatal) ==> p.fatal)
+//@   loop 1 invariant wfp(p) && p.lexer == old(p.lexer) && pm(p) <= old(pm(p)) && (old(p.fatal) ==> p.fatal)
+//@   loop 1 decreases[C12] p.fatal ? 0 : pm(p) + 1
+
+// the deferred type checks run after parsing; their cost and meaning belong to C11/C12 (type-check recursion)
+//@ func (*parser).typeCheck
+//@   trusted
+//@   requires p != nil
+//@   modifies p.errors
+
+//@ func (*parser).parse
+//@   props C12
+//@   noframe
+//@   requires wfp(p)
+//@   loop 1 invariant wfp(p) && p.lexer == old(p.lexer) && pm(p) <= old(pm(p))
+//@   loop 1 decreases[C12] p.fatal ? 0 : pm(p) + 1
+
+//@ func Parse
+//@   props C12
+
+//@ func (itemType).String
+//@   trusted
+//@   pure
